@@ -755,10 +755,14 @@ coap_ws_read(coap_session_t *session, uint8_t *data, size_t datalen) {
   }
 
   /* Get in (remaining) data */
+  if (session->ws->partial && session->ws->data_ofs) {
+    /* What earlier calls have read of this frame: data is not their buffer */
+    memcpy(data, session->ws->partial, session->ws->data_ofs);
+  }
   ret = session->sock.lfunc[COAP_LAYER_WS].l_read(session,
                                                   &data[session->ws->data_ofs],
                                                   session->ws->data_size - session->ws->data_ofs);
-  if (ret <= 0)
+  if (ret < 0)
     return ret;
   session->ws->data_ofs += ret;
   if (session->ws->data_ofs == session->ws->data_size) {
@@ -766,6 +770,8 @@ coap_ws_read(coap_session_t *session, uint8_t *data, size_t datalen) {
       /* Need to unmask the data */
       coap_ws_mask_data(session, data, session->ws->data_size);
     }
+    coap_free_type(COAP_STRING, session->ws->partial);
+    session->ws->partial = NULL;
     session->ws->all_hdr_in = 0;
     session->ws->hdr_ofs = 0;
     session->ws->data_ofs = 0;
@@ -776,6 +782,17 @@ coap_ws_read(coap_session_t *session, uint8_t *data, size_t datalen) {
   /* Need to get in all of the data */
   coap_log_debug("*  %s: Waiting Packet size %zu (got %zu)\n", coap_session_str(session),
                  session->ws->data_size, session->ws->data_ofs);
+  if (session->ws->data_ofs) {
+    /* Keep what there is: the next call comes with another buffer */
+    if (!session->ws->partial)
+      session->ws->partial = coap_malloc_type(COAP_STRING, session->ws->data_size);
+    if (!session->ws->partial) {
+      session->ws->close_reason = 1011;
+      coap_ws_close(session);
+      return 0;
+    }
+    memcpy(session->ws->partial, data, session->ws->data_ofs);
+  }
   return 0;
 }
 
